@@ -133,6 +133,8 @@ def run_check(pid: str, tier: str, seed: int, only_defs=None, replay_mode=False)
     samples = []
     hist = {}
     checked_traces = 0
+    blamed = set()
+    unevaluated_after_stall = 0
     if not fatal:
         expected_fail = getattr(mod, "expected_build_failure", None)
         for (cfgname, k), msg in sorted(build_failures.items()):
@@ -162,6 +164,19 @@ def run_check(pid: str, tier: str, seed: int, only_defs=None, replay_mode=False)
                 evaluations += 1
                 if mobs is None or mobs.startswith("MODEL-FAILURE"):
                     raise RuntimeError("model gave no answer to query %d (%s %s): %s" % (n, kind, args, mobs))
+                if iobs is None and cc is not None and cc.shard_of(k) in cc.stalled:
+                    # the shard was killed because an observer did not terminate: the FIRST unanswered query is the one
+                    if (cfgname, cc.shard_of(k)) in blamed:
+                        unevaluated_after_stall += 1
+                        evaluations -= 1
+                        continue
+                    blamed.add((cfgname, cc.shard_of(k)))
+                    violations.append({"kind": "no-termination", "config": cfgname, "definition": k,
+                                       "rust_source": mod.render_def(k, corpus.defs[k], corpus.meta[k], cfg),
+                                       "model_item": corpus.defs[k].sexp(),
+                                       "query": "%s %s" % (kind, " ".join(args)), "observed": "<the implementation did not answer within the stall limit: killed>",
+                                       "expected": mobs, "family": corpus.meta[k].get("family")})
+                    continue
                 if iobs is None:
                     violations.append({"kind": "no-answer", "config": cfgname, "definition": k,
                                        "rust_source": mod.render_def(k, corpus.defs[k], corpus.meta[k], cfg),
@@ -246,6 +261,8 @@ def run_check(pid: str, tier: str, seed: int, only_defs=None, replay_mode=False)
             "configs": [c["name"] for c in configs], "notes": notes,
         }
         cov.update(extra_info)
+        if unevaluated_after_stall:
+            cov["unevaluated_after_a_non_terminating_observer"] = unevaluated_after_stall
         if hasattr(mod, "extra_coverage"):
             cov.update(mod.extra_coverage(corpus, tier))
         R.write_evidence(pid, tier, seed, cov, list(getattr(mod, "ASSUMPTIONS", [])), reported)
